@@ -68,8 +68,10 @@ class BoolGen(object):
             rel = r.choice('<=>')
             return '\\lengthtest{%s%s%s}' % (a, rel, b), {'<': va < vb, '=': va == vb, '>': va > vb}[rel]
         if k == 'equal':
-            s = r.choice(['ab', 'abc', 'x', 'a1', 'ab'])
-            t = r.choice(['ab', 'abc', 'x', 'a1', 'ab'])
+            s = r.choice(['ab', 'abc', 'x', 'a1', 'ab', '', ''])      # the emptiness idiom \\equal{#1}{} included
+            t = r.choice(['ab', 'abc', 'x', 'a1', 'ab', '', ''])
+            if s == '' and t == '':
+                self.features.add('equal-both-empty')
             st = s
             if r.random() < 0.3:
                 nm = 'zqs' + alpha(len(self.strs))
